@@ -24,15 +24,18 @@ TEXT = {
                    "lengths {0,1,15,16,17,1308} and for the lengths that put the response end 1 or 16 bytes behind a Go allocator size class, "
                    "with and without a packet coalesced behind the response; thorough adds every padding length 0..1308 x the last 48 offsets. "
                    "Generated sessions cut the first flight in up to three segments, interleave server packets (data, padding, PRNG_SEED, "
-                   "NEW_TICKET), segment releases, client writes of 0..5000 bytes and read-buffer sizes under a lock-step prefix oracle with "
-                   "exact equality after a final empty packet; one inverted bit in a packet must end in a Read error with only a prefix "
+                   "NEW_TICKET), segment releases, client writes of 0..5000 bytes and read-buffer sizes under a lock-step oracle: at every "
+                   "quiescent point after Dial the client has delivered exactly the payload that has arrived in complete packets, a "
+                   "NEW_TICKET that has arrived is in the ticket store and a PRNG_SEED has reset the length distribution, without any "
+                   "further traffic (also when the packets share a segment with the response); one inverted bit in a packet must end in a Read error with only a prefix "
                    "delivered; a wrong shared secret or one inverted response bit must never let Dial complete. Histories of connect / "
                    "NEW_TICKET / close / restart / ticket ageing in the live store or the JSON file / wrong secret / tampered response over "
                    "two bridge addresses are compared with a model of the ticket store (ticket handshake with exactly the stored ticket iff "
                    "it is unexpired; no ticket ever seen twice on the wire). Absence of violations beyond the explored bound is not established."),
     "level_note": ("Trusted: stdlib crypto and math/big, the harness's reference server (anchored on RFC 5869 case 1, RFC 4231 case 2, "
                    "RFC 3526 group 5, self-agreement). The ScrambleSuit specification is not available offline: conformance means the deployed "
-                   "format as described in C15. No promptness is claimed: data parked behind the handshake is flushed by a final empty packet. "
+                   "format as described in C15. Delivery is decided at quiescence of the client's reader (it loops on Read and is parked in "
+                   "the network read); the PRNG_SEED effect is compared through probdist.New of the same seed. "
                    "Wrong secret / tampered response are claimed for the UniformDH handshake (the ticket handshake has no response and does "
                    "not use the shared secret). Ticket expiry is exercised by rewriting issuedAt, not by waiting; the real clock is read by "
                    "the client, margins of >= 1 h keep the model exact."),
